@@ -152,7 +152,37 @@ example : StateInUnit c13S := by
 example : (runPass c13KB [Call.down 2 none] c13S).2 = 1/4 := by
   simp [runPass, passSteps, Call.steps, callDown, runSteps, runStep, stepDown, c13KB, c13S,
     arrested, isContra, region, actDown, andDown, opds, writeOps, enumFrom, aggregate, clamp01,
-    termHi, termLo, sumW, Function.update]
+    termHi, sumW, Function.update]
   norm_num
 
+/-- the state after that call -/
+def c13T : State Nat ℚ := fun i =>
+  match i with
+  | 0 => ⟨1/2, 1/2⟩ | 1 => ⟨3/4, 1⟩ | 2 => ⟨1/4, 1⟩ | _ => ⟨0, 1⟩
+
+example : (runPass c13KB [Call.down 2 none] c13S).1 1 = c13T 1 := by
+  simp [runPass, passSteps, Call.steps, callDown, runSteps, runStep, stepDown, c13KB, c13S, c13T,
+    arrested, isContra, region, actDown, andDown, opds, writeOps, enumFrom, aggregate, clamp01,
+    termHi, sumW, Function.update]
+  norm_num
+
+/-- ... on the resulting state the same call reports zero ... -/
+theorem c13T_zero : (runPass c13KB [Call.down 2 none] c13T).2 = 0 := by
+  simp [runPass, passSteps, Call.steps, callDown, runSteps, runStep, stepDown, c13KB, c13T,
+    arrested, isContra, region, actDown, andDown, opds, writeOps, enumFrom, aggregate, clamp01,
+    termHi, sumW, Function.update]
+  norm_num
+
+theorem c13T_unit : StateInUnit c13T := by
+  intro i
+  unfold c13T InUnit
+  split <;> norm_num
+
+/-- ... and hence (by `C13_pass`) changes nothing -/
+example : (runPass c13KB [Call.down 2 none] c13T).1 = c13T :=
+  (C13_pass _ _ _ c13T_unit).mp c13T_zero
+
+/-- the reported `1/4` is the loss of potential -/
+example : Phi [0, 1, 2] c13S - Phi [0, 1, 2] c13T = 1/4 := by
+  simp [Phi, c13S, c13T]; norm_num
 end LNN
